@@ -73,6 +73,9 @@ class DataModels:
             if attr == 'length':
                 return b.length
             raise Unsupported('stream attribute %s' % attr)
+        from .calls import ZlibObj as _Z, ZlibTail as _ZT
+        if isinstance(b, _Z) and attr == 'unconsumed_tail':
+            return _ZT(b)
         if isinstance(b, tuple) and attr in getattr(b, '_fields', ()):
             return getattr(b, attr)           # a member of a concrete namedtuple (a class-level table entry)
         if isinstance(b, (SBytes, SList, SDict, Code, StructRef, SGen, list, dict, str, bytes, tuple, set)) \
